@@ -2,6 +2,7 @@
 //! built with `--no-default-features --features cosmian_cover_crypt_verif`).
 use super::*;
 use crate::core::TracingPublicKey;
+use cosmian_crypto_core::FixedSizeCBytes;
 use crate::verif_model::toy_group::{ToyPoint, ToyScalar};
 
 fn scalar_nz() -> ToyScalar {
@@ -60,4 +61,366 @@ fn g1_kem_classic_1x1() {
     std::mem::forget(usk);
     std::mem::forget(enc);
     std::mem::forget(pk);
+}
+
+// ------------------------------------------------------------------------------------------------
+// shared construction for the KEM harnesses (tracing level 1, one right, classic)
+// ------------------------------------------------------------------------------------------------
+struct Kem1 {
+    p0: ToyPoint,
+    p1: ToyPoint,
+    a0: ToyScalar,
+    a1: ToyScalar,
+    h: ToyPoint,
+}
+fn kem1() -> Kem1 {
+    let s = scalar_nz();
+    let t0 = scalar_nz();
+    let t1 = scalar_nz();
+    let a0 = scalar();
+    let a1 = ((&s - &(&a0 * &t0)) / &t1).unwrap();
+    Kem1 {
+        p0: ToyPoint::from(&t0),
+        p1: ToyPoint::from(&t1),
+        a0,
+        a1,
+        h: ToyPoint::from(&s),
+    }
+}
+macro_rules! usk1 {
+    ($k:expr, $sk:expr) => {{
+        let mut id = LinkedList::new();
+        id.push_back($k.a0.clone());
+        id.push_back($k.a1.clone());
+        let mut secrets = RevisionVec::new();
+        secrets.create_chain_with_single_value(Right(vec![]), $sk);
+        UserSecretKey {
+            id: UserId(id),
+            ps: vec![$k.p0.clone(), $k.p1.clone()],
+            secrets,
+            signature: None,
+        }
+    }};
+}
+
+/// C02 S-kem: a key whose only secret differs from the targeted right's secret gets `None` -- never a secret.
+#[kani::proof]
+#[kani::unwind(2)]
+#[kani::stub(zeroize::optimization_barrier, nop_barrier)]
+#[kani::stub(alloc::fmt::format, no_format)]
+fn s_kem_classic_unauthorized() {
+    let mut rng = SymRng;
+    let k = kem1();
+    let x = scalar_nz();
+    let y = scalar_nz();
+    kani::assume(x != y);
+    let pk = RightPublicKey::Classic { H: &k.h * &x };
+    let S = Secret::random(&mut rng);
+    let r = G_hash(&S).unwrap();
+    let c = vec![&k.p0 * &r, &k.p1 * &r];
+    let (ss, enc) = c_encaps(S, c, r, vec![&pk]).unwrap();
+    let usk = usk1!(k, RightSecretKey::Classic { sk: y });
+    let res = decaps(&mut rng, &usk, &enc).unwrap();
+    kani::cover!(res.is_none(), "decaps returned None");
+    assert!(res.is_none(), "a key without the targeted secret recovered a secret");
+    std::mem::forget(res);
+    std::mem::forget(ss);
+    std::mem::forget(usk);
+    std::mem::forget(enc);
+    std::mem::forget(pk);
+}
+
+/// C07 N-struct: an honest classic encapsulation with ONE component altered (symbolic choice: a tag byte,
+/// a byte of the masked seed F, or one trap) never opens for the authorized key: `None`, never a secret.
+#[kani::proof]
+#[kani::unwind(2)]
+#[kani::stub(zeroize::optimization_barrier, nop_barrier)]
+#[kani::stub(alloc::fmt::format, no_format)]
+fn n_classic_single_tamper() {
+    let mut rng = SymRng;
+    let k = kem1();
+    let x = scalar_nz();
+    let pk = RightPublicKey::Classic { H: &k.h * &x };
+    let S = Secret::random(&mut rng);
+    let r = G_hash(&S).unwrap();
+    let c = vec![&k.p0 * &r, &k.p1 * &r];
+    let (ss, mut enc) = c_encaps(S, c, r, vec![&pk]).unwrap();
+    let what: u8 = kani::any();
+    let pos: usize = kani::any();
+    let delta: u8 = kani::any();
+    kani::assume(delta != 0);
+    if what == 0 {
+        kani::assume(pos < TAG_LENGTH);
+        enc.tag[pos] ^= delta;
+    } else if what == 1 {
+        kani::assume(pos < SHARED_SECRET_LENGTH);
+        if let Encapsulations::CEncs(v) = &mut enc.encapsulations {
+            v[0][pos] ^= delta;
+        }
+    } else {
+        kani::assume(what == 2 && pos < 2);
+        let d = scalar_nz();
+        enc.c[pos] = &enc.c[pos] + &ToyPoint::from(&d);
+    }
+    let usk = usk1!(k, RightSecretKey::Classic { sk: x });
+    let res = decaps(&mut rng, &usk, &enc).unwrap();
+    kani::cover!(what == 0, "tag altered");
+    kani::cover!(what == 1, "masked seed altered");
+    kani::cover!(what == 2, "trap altered");
+    assert!(res.is_none(), "a tampered encapsulation was opened");
+    std::mem::forget(res);
+    std::mem::forget(ss);
+    std::mem::forget(usk);
+    std::mem::forget(enc);
+    std::mem::forget(pk);
+}
+
+/// C01/C11 L-kem hybrid: h_encaps then decaps with the matching hybridized secret returns the same secret.
+#[kani::proof]
+#[kani::unwind(2)]
+#[kani::stub(zeroize::optimization_barrier, nop_barrier)]
+#[kani::stub(alloc::fmt::format, no_format)]
+fn g1_kem_hybrid_1x1() {
+    let mut rng = SymRng;
+    let k = kem1();
+    let x = scalar_nz();
+    let dk = crate::verif_model::toy_kem::ToyDk(kani::any());
+    let pk = RightPublicKey::Hybridized { H: &k.h * &x, ek: dk.ek() };
+    let S = Secret::random(&mut rng);
+    let r = G_hash(&S).unwrap();
+    let c = vec![&k.p0 * &r, &k.p1 * &r];
+    let subkeys = [&pk];
+    let (ss, enc) = h_encaps(S, c, r, &subkeys, &mut rng).unwrap();
+    kani::cover!(matches!(enc.encapsulations, Encapsulations::HEncs(_)), "hybridized encapsulation");
+    assert!(matches!(enc.encapsulations, Encapsulations::HEncs(_)));
+    let usk = usk1!(k, RightSecretKey::Hybridized { sk: x, dk });
+    let res = decaps(&mut rng, &usk, &enc).unwrap();
+    kani::cover!(res.is_some(), "decaps returned Some");
+    assert!(res.is_some());
+    assert!(eq32(&**res.as_ref().unwrap(), &*ss));
+    std::mem::forget(res);
+    std::mem::forget(ss);
+    std::mem::forget(usk);
+    std::mem::forget(enc);
+    std::mem::forget(pk);
+}
+
+// ------------------------------------------------------------------------------------------------
+// C11 H-enc: select_subkeys (what decides the encapsulation mode) -- no hashing
+// ------------------------------------------------------------------------------------------------
+#[kani::proof]
+#[kani::unwind(4)]
+#[kani::stub(zeroize::optimization_barrier, nop_barrier)]
+#[kani::stub(alloc::fmt::format, no_format)]
+fn h_select_subkeys_mode() {
+    let hyb0: bool = kani::any();
+    let hyb1: bool = kani::any();
+    let two: bool = kani::any();
+    let mk = |hyb: bool, v: u8| {
+        if hyb {
+            RightPublicKey::Hybridized { H: ToyPoint(v), ek: crate::verif_model::toy_kem::ToyEk([v, 0]) }
+        } else {
+            RightPublicKey::Classic { H: ToyPoint(v) }
+        }
+    };
+    let mut encryption_keys = HashMap::new();
+    encryption_keys.insert(Right(vec![]), mk(hyb0, 1));
+    encryption_keys.insert(Right(vec![1]), mk(hyb1, 2));
+    let mpk = MasterPublicKey {
+        tpk: crate::core::TracingPublicKey(LinkedList::new()),
+        encryption_keys,
+        access_structure: AccessStructure::default(),
+    };
+    let mut targets = HashSet::new();
+    targets.insert(Right(vec![]));
+    if two {
+        targets.insert(Right(vec![1]));
+    }
+    let (is_hyb, keys) = mpk.select_subkeys(&targets).unwrap();
+    kani::cover!(two && hyb0 && !hyb1, "mixed flavours");
+    kani::cover!(two && hyb0 && hyb1, "all hybridized");
+    // an encapsulation is hybridized iff every right it targets is hybridized
+    assert!(is_hyb == (hyb0 && (!two || hyb1)), "encapsulation mode is not 'all targets hybridized'");
+    assert!(keys.len() == if two { 2 } else { 1 });
+    // a right without a published key is an error (C09)
+    let mut missing = HashSet::new();
+    missing.insert(Right(vec![9]));
+    assert!(mpk.select_subkeys(&missing).is_err(), "encryption for a right with no published key must fail");
+    std::mem::forget(keys);
+    std::mem::forget(mpk);
+    std::mem::forget(targets);
+    std::mem::forget(missing);
+}
+
+// ------------------------------------------------------------------------------------------------
+// C17 V-id / C16 W-id: generate_user_id and refresh_id
+// ------------------------------------------------------------------------------------------------
+#[kani::proof]
+#[kani::unwind(4)]
+#[kani::stub(zeroize::optimization_barrier, nop_barrier)]
+#[kani::stub(alloc::fmt::format, no_format)]
+fn v_generate_user_id_relation() {
+    let s = scalar_nz();
+    let t0 = scalar_nz();
+    let t1 = scalar_nz();
+    let mut tracers = LinkedList::new();
+    tracers.push_back((t0.clone(), ToyPoint::from(&t0)));
+    tracers.push_back((t1.clone(), ToyPoint::from(&t1)));
+    let mut tsk = crate::core::TracingSecretKey { s: s.clone(), tracers, users: HashSet::new() };
+    let mut rng = SymRng;
+    let id = tsk.generate_user_id(&mut rng).unwrap();
+    kani::cover!(true, "id generated");
+    // registered
+    assert!(tsk.is_known(&id), "a generated id must be recorded in the master key");
+    assert!(tsk.users.len() == 1);
+    // tracing relation: sum a_i * t_i = s
+    let mut it = id.iter();
+    let a0 = it.next().unwrap();
+    let a1 = it.next().unwrap();
+    assert!(it.next().is_none(), "one marker per tracer");
+    assert!(&(a0 * &t0) + &(a1 * &t1) == s, "markers combined with the tracers must give the binding scalar");
+    assert!(tsk._validate_user_id(&id));
+    // a second id is registered as well; if the RNG draws differ the ids differ (C16)
+    let id2 = tsk.generate_user_id(&mut rng).unwrap();
+    assert!(tsk.is_known(&id2) && tsk.is_known(&id));
+    let b0 = id2.iter().next().unwrap();
+    if b0 != a0 {
+        assert!(id2 != id && tsk.users.len() == 2);
+    }
+    // refresh_id: unknown id refused, known id of the right level kept as is
+    let mut fake = LinkedList::new();
+    fake.push_back(a0 + &ToyScalar::new(1));
+    fake.push_back(a1.clone());
+    let fake = UserId(fake);
+    if !tsk.is_known(&fake) {
+        assert!(tsk.refresh_id(&mut rng, fake).is_err(), "unknown id must be refused");
+    }
+    let same = tsk.refresh_id(&mut rng, id.clone()).unwrap();
+    assert!(same == id);
+    std::mem::forget(tsk);
+}
+
+// ------------------------------------------------------------------------------------------------
+// C08: sign / verify over the random-oracle KMAC model (signature equality <=> transcript equality)
+// ------------------------------------------------------------------------------------------------
+fn signing_msk() -> MasterSecretKey {
+    let t = scalar_nz();
+    let mut tracers = LinkedList::new();
+    tracers.push_back((t.clone(), ToyPoint::from(&t)));
+    MasterSecretKey {
+        tsk: crate::core::TracingSecretKey { s: scalar_nz(), tracers, users: HashSet::new() },
+        secrets: RevisionMap::new(),
+        signing_key: Some(SymmetricKey::try_from_bytes([7u8; SIGNING_KEY_LENGTH]).unwrap()),
+        access_structure: AccessStructure::default(),
+    }
+}
+fn cl(v: u8) -> RightSecretKey {
+    RightSecretKey::Classic { sk: ToyScalar::new(v) }
+}
+fn el() -> u8 {
+    let v: u8 = kani::any();
+    kani::assume((v as u16) < crate::verif_model::toy_group::P);
+    v
+}
+
+/// F-verify: the signature of an issued key verifies; changing a marker, the secret or the name of the right
+/// (same shape) or any byte of the signature makes verification fail.
+#[kani::proof]
+#[kani::unwind(4)]
+#[kani::stub(zeroize::optimization_barrier, nop_barrier)]
+#[kani::stub(alloc::fmt::format, no_format)]
+fn f_verify_detects_value_changes() {
+    let msk = signing_msk();
+    let (a0, k1, n) = (el(), el(), kani::any::<u8>());
+    let mut id = LinkedList::new();
+    id.push_back(ToyScalar::new(a0));
+    let mut secrets = RevisionVec::new();
+    secrets.create_chain_with_single_value(Right(vec![n]), cl(k1));
+    let id = UserId(id);
+    let sig = sign(&msk, &id, &secrets).unwrap();
+    assert!(sig.is_some());
+    // same shape, at least one value changed (symbolic which), or one signature byte flipped
+    let (b0, l1, m) = (el(), el(), kani::any::<u8>());
+    let flip: bool = kani::any();
+    let pos: usize = kani::any();
+    kani::assume(pos < SIGNATURE_LENGTH);
+    let mut presented = sig.unwrap();
+    if flip {
+        presented[pos] ^= 1;
+    } else {
+        kani::assume(b0 != a0 || l1 != k1 || m != n);
+    }
+    let mut id2 = LinkedList::new();
+    id2.push_back(ToyScalar::new(if flip { a0 } else { b0 }));
+    let mut secrets2 = RevisionVec::new();
+    secrets2.create_chain_with_single_value(Right(vec![if flip { n } else { m }]), cl(if flip { k1 } else { l1 }));
+    let forged = UserSecretKey { id: UserId(id2), ps: Vec::new(), secrets: secrets2, signature: Some(presented) };
+    kani::cover!(!flip && b0 == a0 && l1 == k1, "only the right's name differs");
+    kani::cover!(flip, "signature byte flipped");
+    assert!(verify(&msk, &forged).is_err(), "a key with altered content or signature passed the integrity check");
+    std::mem::forget(forged);
+    std::mem::forget(secrets);
+    std::mem::forget(id);
+    std::mem::forget(msk);
+}
+
+/// F-inj (re-framing): two keys with DIFFERENT arrangements of the same bytes must not share a signature.
+/// Arrangement A: one right `n` with the chain [k1, k2]. Arrangement B: right `n` with [k1] and the empty
+/// right with [k2]. (The MAC input is the plain concatenation of names and secrets.)
+#[kani::proof]
+#[kani::unwind(4)]
+#[kani::stub(zeroize::optimization_barrier, nop_barrier)]
+#[kani::stub(alloc::fmt::format, no_format)]
+fn f_sign_reframing_chain_split() {
+    let msk = signing_msk();
+    let (a0, k1, k2, n) = (el(), el(), el(), kani::any::<u8>());
+    let mut id = LinkedList::new();
+    id.push_back(ToyScalar::new(a0));
+    let id = UserId(id);
+    let mut chain = LinkedList::new();
+    chain.push_back(cl(k1));
+    chain.push_back(cl(k2));
+    let mut a = RevisionVec::new();
+    a.insert_new_chain(Right(vec![n]), chain);
+    let mut b = RevisionVec::new();
+    b.create_chain_with_single_value(Right(vec![n]), cl(k1));
+    b.create_chain_with_single_value(Right(vec![]), cl(k2));
+    let sa = sign(&msk, &id, &a).unwrap().unwrap();
+    let sb = sign(&msk, &id, &b).unwrap().unwrap();
+    kani::cover!(true, "both signed");
+    assert!(sa != sb, "two different arrangements of rights and secrets share one signature (no length framing in the MAC input)");
+    std::mem::forget(a);
+    std::mem::forget(b);
+    std::mem::forget(msk);
+}
+
+/// F-inj (re-framing 2): bytes shifted between a right's name and the next field.
+/// A: rights [n0] -> [k1] ; B: rights [n0, k1's serialization as part of the name] cannot be built with scalars
+/// (names are bytes, secrets are flagged scalars), so the second probe moves a whole right: A = {n:[k1], m:[k2]}
+/// vs B = {n:[k1], m:[k2]} in the other order -- order is part of the arrangement and must change the signature.
+#[kani::proof]
+#[kani::unwind(4)]
+#[kani::stub(zeroize::optimization_barrier, nop_barrier)]
+#[kani::stub(alloc::fmt::format, no_format)]
+fn f_sign_order_matters() {
+    let msk = signing_msk();
+    let (a0, k1, k2) = (el(), el(), el());
+    let (n, m) = (kani::any::<u8>(), kani::any::<u8>());
+    kani::assume(n != m || k1 != k2);
+    let mut id = LinkedList::new();
+    id.push_back(ToyScalar::new(a0));
+    let id = UserId(id);
+    let mut a = RevisionVec::new();
+    a.create_chain_with_single_value(Right(vec![n]), cl(k1));
+    a.create_chain_with_single_value(Right(vec![m]), cl(k2));
+    let mut b = RevisionVec::new();
+    b.create_chain_with_single_value(Right(vec![m]), cl(k2));
+    b.create_chain_with_single_value(Right(vec![n]), cl(k1));
+    let sa = sign(&msk, &id, &a).unwrap().unwrap();
+    let sb = sign(&msk, &id, &b).unwrap().unwrap();
+    kani::cover!(true, "both signed");
+    assert!(sa != sb, "reordering the rights of a key does not change its signature");
+    std::mem::forget(a);
+    std::mem::forget(b);
+    std::mem::forget(msk);
 }
